@@ -2,6 +2,7 @@
    length.  See models/strings.h.  Linked like ordinary source (before the
    loop-contract pass); no loops with symbolic bounds.  */
 #include "xv.h"
+#include <limits.h>
 #include "models/strings.h"
 
 struct xv_str xv_strs[XV_MAXSTR];
@@ -153,3 +154,71 @@ void explicit_bzero (void *s, size_t n)
 #endif
 }
 unsigned xv_event_seq;
+
+
+/* strtoul (nptr, endptr, 10) for the way the library uses it: the caller has
+   already checked that *nptr is a digit (every call site does; anything else
+   fails an obligation here instead of being guessed), so no whitespace, sign
+   or base prefix handling is involved.  Value: Horner evaluation of the
+   digit run with C's saturation (ULONG_MAX and errno = ERANGE on overflow).
+   The digit run is scanned exactly for 20 characters (ULONG_MAX has 20
+   digits, so a longer run has certainly overflowed); a longer run ends at a
+   nondeterministic position constrained like strcspn's result.  */
+struct xv_parse_rec xv_parse_log[XV_PARSE_LOG];
+unsigned xv_parse_n;
+
+unsigned long strtoul (const char *nptr, char **endptr, int base)
+{
+  __CPROVER_assert (base == 10, "strtoul model: base 10 only");
+  __CPROVER_assert (nptr[0] >= '0' && nptr[0] <= '9', "strtoul model: called on a digit (callers check this first)");
+  size_t len = 0;
+  _Bool reg = xv_str_lookup (nptr, &len);
+  __CPROVER_assert (reg, "strtoul model: argument is a caller string");
+  unsigned long acc = 0;
+  _Bool ovf = 0;
+  size_t nd = 0;
+  _Bool run = 1;
+  unsigned char dig[10];
+  for (size_t i = 0; i < 20; i++)   /* XV_UNWIND 20 */
+    {
+      if (run && i < len && nptr[i] >= '0' && nptr[i] <= '9')
+        {
+          unsigned long d = (unsigned long) (nptr[i] - '0');
+          if (i < 10) dig[i] = (unsigned char) d;
+          /* acc * 10 + d > ULONG_MAX, without division by a symbolic value */
+          if (acc > ULONG_MAX / 10 || (acc == ULONG_MAX / 10 && d > ULONG_MAX % 10)) ovf = 1;
+          acc = acc * 10 + d;
+          nd++;
+        }
+      else
+        run = 0;
+    }
+  size_t end = nd;
+  if (run && nd == 20)
+    {
+      /* more than 20 digits: certainly out of range */
+      ovf = 1;
+      size_t r = nondet_size ();
+      __CPROVER_assume (r >= 20 && r <= len);
+      __CPROVER_assume (r == len || !(nptr[r] >= '0' && nptr[r] <= '9'));
+      end = r;
+    }
+  if (endptr)
+    *endptr = (char *) nptr + end;
+  if (xv_parse_n < XV_PARSE_LOG)
+    {
+      xv_parse_log[xv_parse_n].at = nptr;
+      xv_parse_log[xv_parse_n].nd = (unsigned) (nd < 11 ? nd : 11);
+      for (unsigned i = 0; i < 10; i++)   /* XV_UNWIND 10 */
+        xv_parse_log[xv_parse_n].dig[i] = dig[i];
+      xv_parse_log[xv_parse_n].v = ovf ? ULONG_MAX : acc;
+      xv_parse_log[xv_parse_n].overflow = ovf;
+      xv_parse_n++;
+    }
+  if (ovf)
+    {
+      errno = ERANGE;
+      return ULONG_MAX;
+    }
+  return acc;
+}
